@@ -136,9 +136,11 @@ func C20(c *core.Ctx) {
 			return nil
 		}
 		gates := map[string]*gate{
-			"load":     find(func(f *types.Func) bool { return core.IsPkgFunc(f, pkgFact, "InitConfigFactory") }),
-			"validate": find(func(f *types.Func) bool { return f.Name() == "ValidateStruct" && strings.HasSuffix(f.Pkg().Path(), "govalidator") }),
-			"resolve":  find(func(f *types.Func) bool { return core.IsPkgFunc(f, "net", "ResolveIPAddr") }),
+			"load": find(func(f *types.Func) bool { return core.IsPkgFunc(f, pkgFact, "InitConfigFactory") }),
+			"validate": find(func(f *types.Func) bool {
+				return f.Name() == "ValidateStruct" && strings.HasSuffix(f.Pkg().Path(), "govalidator")
+			}),
+			"resolve": find(func(f *types.Func) bool { return core.IsPkgFunc(f, "net", "ResolveIPAddr") }),
 		}
 		for n, g := range gates {
 			c.Check("R2", "gate-present:"+n, fn.Pos(), g != nil && g.err != nil, "ReadConfig performs the "+n+" step and looks at its error")
